@@ -27,7 +27,7 @@ Fit(s, room) == IF s = <<>> \/ Head(s).w > room THEN 0 ELSE 1 + Fit(Tail(s), roo
 Diverges  == [ok |-> FALSE, parts |-> <<>>]
 Parts(ps) == [ok |-> TRUE, parts |-> ps]
 
-\* req.split(maxSize, sz): extract while size > max, then the remainder (also when it is empty)
+\* req.split(maxSize, sz): extract while size > max, then the remainder
 RECURSIVE SplitP(_, _, _, _)
 SplitP(s, sizer, max, oversized) ==
   IF max = 0 \/ SizeOfP(s, sizer) <= max THEN Parts(<<s>>)
@@ -36,6 +36,8 @@ SplitP(s, sizer, max, oversized) ==
        IN IF k = 0 THEN Diverges
           ELSE LET rest == SplitP(SubSeq(s, k + 1, Len(s)), sizer, max, oversized)
                IN IF ~rest.ok THEN Diverges
+                  \* nothing is left after a last item that was sent alone: no empty request is returned
+                  ELSE IF rest.parts = << <<>> >> THEN Parts(<<SubSeq(s, 1, k)>>)
                   ELSE Parts(<<SubSeq(s, 1, k)>> \o rest.parts)
 
 \* cur.MergeSplit(ctx, max, sizer, new); cur = <<>> stands for "no current request"
